@@ -154,7 +154,8 @@ Definition learned (s s1 : bc) : Prop :=
 
 Inductive fired (s : bc) (e : event) (s' : bc) : Prop :=
 | F_new : e = ENewConn -> conn_open s = false -> s' = new_conn s -> fired s e s'
-| F_mark : e = ECloseReq \/ e = EQuiescent -> conn_open s = true -> s' = s -> fired s e s'
+| F_mark : e = ECloseReq -> conn_open s = true -> s' = s -> fired s e s'
+| F_quiet : e = EQuiescent -> quiescent s = true -> s' = s -> fired s e s'
 | F_clo : step_clo s e = Some s' -> fired s e s'
 | F_proc g s1 : ev_g e = Some g -> learned s s1 -> gproc s1 = Some g -> conn_open s = true ->
                 step_proc s1 e = Some s' -> fired s e s'
@@ -220,7 +221,8 @@ Proof. destruct (conn_open s); [reflexivity|discriminate]. Qed.
 Lemma step_generic_inv s e g s' (tail : option bc) :
   ev_g e = Some g -> conn_open s = true ->
   first_some (step_clo s e)
-    (if is_role (gproc s) g then step_proc s e
+    (if in_closure s g then None
+     else if is_role (gproc s) g then step_proc s e
      else if is_role (gdeq s) g then step_deq s e
      else if is_role (gack s) g then step_ack s e
      else if is_role (gcl s) g then step_cleanup s e
@@ -231,6 +233,7 @@ Lemma step_generic_inv s e g s' (tail : option bc) :
 Proof.
   intros Hg Ho H Htail. unfold first_some in H.
   destruct (step_clo s e) as [x|] eqn:Ec; [injection H as <-; apply F_clo; exact Ec|].
+  destruct (in_closure s g); [discriminate H|].
   destruct (is_role (gproc s) g) eqn:Ep.
   { apply is_role_true in Ep. eapply F_proc; [exact Hg|left; reflexivity|exact Ep|exact Ho|exact H]. }
   destruct (is_role (gdeq s) g) eqn:Ed.
@@ -285,9 +288,8 @@ Proof.
     eapply F_deq; [reflexivity|exact L|exact G|exact Eo| |exact Ht].
     rewrite Gp. apply is_role_false. exact Ep.
   - (* ECloseReq *) unfold guard in H. destruct (conn_open s) eqn:Eo; [|discriminate]. injection H as <-.
-    apply F_mark; [left; reflexivity|exact Eo|reflexivity].
+    apply F_mark; [reflexivity|exact Eo|reflexivity].
   - (* EClosed *) apply F_closed; [reflexivity|exact H].
-  - (* EQuiescent *) unfold guard in H. destruct (conn_open s) eqn:Eo; [|discriminate]. cbn [andb] in H.
-    destruct (negb (dying s)); [|discriminate]. injection H as <-.
-    apply F_mark; [right; reflexivity|exact Eo|reflexivity].
+  - (* EQuiescent *) unfold guard in H. destruct (quiescent s) eqn:Eq; [|discriminate]. injection H as <-.
+    apply F_quiet; [reflexivity|exact Eq|reflexivity].
 Qed.
